@@ -22,6 +22,7 @@ Uses the C01 driver's state for `caps`/`size`/`dict`/`cell`/`showcursor`/`hidecu
   emuquery <op line of Model/EmuIO.lean> \t <hex of the bytes the real emulator replied>
       one sequence Vaxis wrote during start-up. model-canon = the bytes of `Model.C12Replies.replies`
       on the model state, impl-canon = the real reply; then the model emulator executes the sequence.
+  emucapsto <0|1> <cpr|da1> \t <17 bits>: the same after a timer of New() fired (one reply withheld)
   emucaps also compares (model-canon / impl-canon): the capability bits `Model.C12Replies.capsFrom`
       derives from the MODELLED replies (C03's model of handleSequence + New()) with the bits the real
       Vaxis detected, and checks that `Model.C12Replies.startupQueries` is what Vaxis really sent
@@ -217,6 +218,22 @@ def step (s : St) (line : String) : St × String :=
       let mq := if same then "queries=model" else "queries=" ++ " | ".intercalate (VaxisModel.Model.C12Replies.startupAll.map reprStr)
       let iq := if same then "queries=model" else "queries=" ++ " | ".intercalate (ops.map reprStr)
       (s, s!"caps={mcaps} {mq}\tcaps={impl} {iq}\t{v}")
+  | ["emucapsto", ct, which] =>
+      -- a timer of New() fired because one reply was lost on the way. `which` = "cpr": the 50 ms timer of the
+      -- explicit-width probe (Props/C12Startup.emu_dialogue_caps: the record is still exact); "da1": the 3 s
+      -- context of the collection loop (Props/C12Timers.emu_dialogue_caps_within: nothing is understood that the
+      -- emulator does not announce; direct colour only from COLORTERM) — evaluated on the implementation
+      let colorterm := ct == "1"
+      let det := (names.zip (impl.toList.map (· == '1'))).filter (·.2) |>.map (·.1)
+      let announced := ["sixels", "unicodeCore", "osc11"] ++ (if colorterm then ["rgb"] else [])
+      let must := if which == "cpr" then ["sixels", "unicodeCore"] ++ (if colorterm then ["rgb"] else []) else []
+      let v := match det.find? (fun n => !announced.contains n) with
+        | some n => s!"FAIL a timer of New() fired and Vaxis understood '{n}', which the emulator did not announce"
+        | none =>
+          match must.find? (fun n => !det.contains n) with
+          | some n => s!"FAIL only the probe timed out, but '{n}' (announced by the emulator) was not understood"
+          | none => "ok"
+      (s, s!"chk\tchk\t{v}")
   | ["emuadopt"] =>
       match VaxisModel.Model.EmuIO.parseSnap? impl with
       | some sn => ({ s with emuM := some sn.e, emuDead := false }, "-\t-\t-")
